@@ -149,6 +149,21 @@ def init_job(interp, c, case):
             "set_current_time puts the first slot one step after the given time", "set_current_time", rp, syms)
 
 
+def retime_job(interp, c, case):
+    """set_current_time on a queue that has been advanced and holds pending entries: the clock of the read position changes,
+    every pending entry keeps its distance from it (so a queue handed from one simulation to the next delivers on time)"""
+    R, C, start = case
+    S, q, q0, dt, nqt, syms = _mk_queue(interp, c, R, C, start)
+    t1 = c.real("t1")
+    syms = dict(syms, t1=t1)
+    rp = dict(op="retime", R=R, C=C, start=start)
+    q.set_current_time(t1)
+    same = [q.queue[i, j] == q0[i, j] for i in range(R) for j in range(C)]
+    _report(c, s_and(q.start_index == start, q.next_queue_time == t1 + dt, q.dt == dt, *same),
+            "set_current_time on an advanced queue moves the read position's clock to one step after the given time and leaves the "
+            "read position and every pending entry where they are", "set_current_time on an advanced queue R=%d C=%d" % (R, C), rp, syms)
+
+
 def partition_job(interp, c, case):
     R, C, start, maxn, symcells = case
     install_uniform(interp)
@@ -200,6 +215,7 @@ def check(tier):
     ck.add("advance", "harness.C20", "advance_job", dict(cases=advs))
     ck.add("copy", "harness.C20", "copy_job", dict(cases=advs))
     ck.add("init", "harness.C20", "init_job", dict(cases=[(R, C) for R in Rs for C in Cs]))
+    ck.add("retime", "harness.C20", "retime_job", dict(cases=advs))
     mx = 3 if tier == "thorough" else 2
     parts = [(1, 2, 0, mx, [(0, 0), (0, 1)]), (1, 2, 1, mx, [(0, 0), (0, 1)]), (2, 2, 1, mx, [(0, 1), (1, 0)]),
              (2, 3, 2, mx, [(1, 2), (0, 0)]), (1, 4, 3, mx, [(0, 3), (0, 1)])]
